@@ -364,6 +364,7 @@ CONSTRUCTS = {
     "if-unclosed": (["@if gold > 1:", "    Rich."], 0, "@if block never closed"),
     "for-unclosed": (["@for q in [1]:", "    Q {q}"], 0, "@for block never closed"),
     "py-unclosed": (["@py:", "zz = 1"], 0, "@py block not closed"),
+    "py-legacy-unclosed": (["<<py", "zz = 1"], 0, "<<py block not closed"),
     "endif-colon": (["@if gold > 1:", "    Rich.", "@endif:", "@endif"], 2, "@endif should not have a colon"),
     "endfor-colon": (["@for q in [1]:", "    Q {q}", "@endfor:", "@endfor"], 2, "@endfor should not have a colon"),
     "py-no-colon": (["@py", "zz = 1", "@endpy"], 0, "@py statement missing colon"),
